@@ -507,9 +507,11 @@ func builtinArrayLastIndexOf(call FunctionCall) Value {
 	if 0 > index {
 		index += length
 	}
-	if index > length {
+	if index >= length {
+		// min(n, len - 1), also -1 for an empty object (15.4.4.15 steps 4 and 6)
 		index = length - 1
-	} else if 0 > index {
+	}
+	if 0 > index {
 		return intValue(-1)
 	}
 	for ; index >= 0; index-- {
